@@ -2576,6 +2576,10 @@ static void my_reset_marker_reader(j_decompress_ptr dinfo)
 {
 }
 
+static void my_start_input_pass(j_decompress_ptr dinfo)
+{
+}
+
 /* TurboJPEG 3.0+ */
 DLLEXPORT int tj3DecodeYUVPlanes8(tjhandle handle,
                                   const unsigned char * const *srcPlanes,
@@ -2592,6 +2596,7 @@ DLLEXPORT int tj3DecodeYUVPlanes8(tjhandle handle,
   jpeg_component_info *compptr;
   int (*old_read_markers) (j_decompress_ptr) = NULL;
   void (*old_reset_marker_reader) (j_decompress_ptr) = NULL;
+  void (*old_start_input_pass) (j_decompress_ptr) = NULL;
 
   GET_DINSTANCE(handle);
 
@@ -2612,6 +2617,7 @@ DLLEXPORT int tj3DecodeYUVPlanes8(tjhandle handle,
      code signals an error while the dummy methods are installed. */
   old_read_markers = dinfo->marker->read_markers;
   old_reset_marker_reader = dinfo->marker->reset_marker_reader;
+  old_start_input_pass = dinfo->inputctl->start_input_pass;
 
   if (setjmp(this->jerr.setjmp_buffer)) {
     /* If we get here, the JPEG code has signaled an error. */
@@ -2641,7 +2647,12 @@ DLLEXPORT int tj3DecodeYUVPlanes8(tjhandle handle,
   this->dinfo.dct_method = this->fastDCT ? JDCT_FASTEST : JDCT_ISLOW;
   dinfo->do_fancy_upsampling = FALSE;
   dinfo->Se = DCTSIZE2 - 1;
+  /* No entropy-coded data is read, so don't let start_input_pass() set up (and
+     validate) the entropy decoder using whatever Huffman tables a previous
+     datastream left in this instance. */
+  dinfo->inputctl->start_input_pass = my_start_input_pass;
   jinit_master_decompress(dinfo);
+  dinfo->inputctl->start_input_pass = old_start_input_pass;
   (*dinfo->upsample->start_pass) (dinfo);
 
   pw0 = PAD(width, dinfo->max_h_samp_factor);
@@ -2715,6 +2726,8 @@ bailout:
     dinfo->marker->read_markers = old_read_markers;
   if (old_reset_marker_reader)
     dinfo->marker->reset_marker_reader = old_reset_marker_reader;
+  if (old_start_input_pass)
+    dinfo->inputctl->start_input_pass = old_start_input_pass;
   if (dinfo->global_state > DSTATE_START) jpeg_abort_decompress(dinfo);
   free(row_pointer);
   for (i = 0; i < MAX_COMPONENTS; i++) {
